@@ -633,11 +633,17 @@ func Clone(n Node) Node {
 		// Decoration: Start
 		out.Decs.Start = append(out.Decs.Start, n.Decs.Start...)
 
+		// Special decoration: Start
+		out.Type.Decs.Start = append(out.Type.Decs.Start, n.Type.Decs.Start...)
+
 		// Token: Func
 		out.Type.Func = n.Type.Func
 
 		// Decoration: Func
 		out.Decs.Func = append(out.Decs.Func, n.Decs.Func...)
+
+		// Special decoration: Func
+		out.Type.Decs.Func = append(out.Type.Decs.Func, n.Type.Decs.Func...)
 
 		// Node: Recv
 		if n.Recv != nil {
@@ -663,6 +669,9 @@ func Clone(n Node) Node {
 		// Decoration: TypeParams
 		out.Decs.TypeParams = append(out.Decs.TypeParams, n.Decs.TypeParams...)
 
+		// Special decoration: TypeParams
+		out.Type.Decs.TypeParams = append(out.Type.Decs.TypeParams, n.Type.Decs.TypeParams...)
+
 		// Node: Params
 		if n.Type.Params != nil {
 			out.Type.Params = Clone(n.Type.Params).(*FieldList)
@@ -671,6 +680,9 @@ func Clone(n Node) Node {
 		// Decoration: Params
 		out.Decs.Params = append(out.Decs.Params, n.Decs.Params...)
 
+		// Special decoration: Params
+		out.Type.Decs.Params = append(out.Type.Decs.Params, n.Type.Decs.Params...)
+
 		// Node: Results
 		if n.Type.Results != nil {
 			out.Type.Results = Clone(n.Type.Results).(*FieldList)
@@ -678,6 +690,9 @@ func Clone(n Node) Node {
 
 		// Decoration: Results
 		out.Decs.Results = append(out.Decs.Results, n.Decs.Results...)
+
+		// Special decoration: End
+		out.Type.Decs.End = append(out.Type.Decs.End, n.Type.Decs.End...)
 
 		// Node: Body
 		if n.Body != nil {
